@@ -373,7 +373,8 @@ func reifyValue(
 	}
 
 	baseType := chaseTypePointers(t)
-	if tConfig.ConvertibleTo(baseType) {
+	// (every type converts to an interface type: a pointer to an interface is no Config target)
+	if baseType.Kind() != reflect.Interface && tConfig.ConvertibleTo(baseType) {
 		cfg, err := val.toConfig(opts.opts)
 		if err != nil {
 			return reflect.Value{}, raiseExpectedObject(opts.opts, val)
@@ -446,7 +447,7 @@ func reifyMergeValue(
 
 	baseType := chaseTypePointers(old.Type())
 
-	if tConfig.ConvertibleTo(baseType) {
+	if baseType.Kind() != reflect.Interface && tConfig.ConvertibleTo(baseType) {
 		sub, err := val.toConfig(opts.opts)
 		if err != nil {
 			return reflect.Value{}, raiseExpectedObject(opts.opts, val)
